@@ -204,6 +204,15 @@ pub fn run(t: &[&str]) -> String {
                 let r = run_program_with_pre_eval(&mut a, &ChiaDialect::new(flags), p, e, max_cost, Some(pre));
                 return outcome(&a, r);
             }
+            // rep=<k>: the same program and environment nodes are first run k times in this allocator
+            // (under the flags rf=<bits>, default: the same flags), results discarded: an earlier run
+            // - successful or failed - is part of the heap history the measured run must not depend on
+            if let Some(k) = kv(opts, "rep") {
+                let rf = kv(opts, "rf").map(|v| ClvmFlags::from_bits_truncate(v.parse::<u32>().unwrap())).unwrap_or(flags);
+                for _ in 0..k.parse::<u32>().unwrap() {
+                    let _ = run_program(&mut a, &ChiaDialect::new(rf), p, e, max_cost);
+                }
+            }
             let r = match kv(opts, "d").unwrap_or("chia") {
                 "chia" => run_program(&mut a, &ChiaDialect::new(flags), p, e, max_cost),
                 "hide" => run_program(&mut a, &Hide(ChiaDialect::new(flags)), p, e, max_cost),
